@@ -265,7 +265,7 @@ func (o *ops) ReadCache(file string) ([]byte, error) {
 			}
 			w.Res.Logf("c%d ReadCache %s -> error", c.ID, file)
 			return nil, errSim
-		case "cache-bitflip", "cache-truncate", "cache-cross":
+		case "cache-bitflip", "cache-truncate", "cache-cross", "cache-garbage", "cache-swap":
 			if ok {
 				data = w.applyDiskFault(c, f, file, data)
 			}
